@@ -11,12 +11,11 @@ PARTIAL = [
     "proved in Lean (Props/C06.lean, every degree / position / prior multiplicity / count): r insertions of a knot followed "
     "by t <= r removals (span k+r and multiplicity s+r, which are what the library's searches return) give exactly the "
     "control points of r-t insertions (t = r: the original ones) for curves, both directions of surfaces and all three "
-    "directions of volumes; sizes and knot vectors drop by the count; evaluated curve points are unchanged; object-level "
-    "insert_knot / remove_knot round trip for curves. NOT proved: knots produced by refinement, or inserted knots after "
+    "directions of volumes; sizes and knot vectors drop by the count; evaluated points are unchanged; object-level "
+    "insert_knot / remove_knot round trip for curves, surfaces and volumes (one direction per call). NOT proved: knots produced by refinement, or inserted knots after "
     "which OTHER knots were inserted, i.e. 'whenever removable at all' (needs uniqueness of B-spline coefficients / "
     "linear independence); these are checked by the exact oracle and the correspondence only",
-    "the object-level (Shape) round trip and the evaluated-point corollary are stated for curves only; for surfaces and "
-    "volumes the net-level theorem (result = net of r-t insertions) plus C04 gives the same conclusion",
+    "object-level (Shape) round trip removeKnot (insertKnot S ...).1 ... = (S, true), the partial version (r in, t <= r out = r - t in) and the evaluated-point corollary are proved for curves, for either direction of a surface and for any direction of a volume (surface_insert_then_remove, volume_insert_then_remove, *_insert_r_remove_t_object, *_remove_after_insert_preserves_points) when the call requests ONE direction (OnlyDir); insert in several directions followed by removal in several directions is not proved (the removal of the first direction then runs on a net refined in the others: needs the commutation of insertion in one direction with removal in another)",
     "volumes: one removability flag is computed from the first iso-curve (as the code does); the model decides per iso-curve, so only removable knots are generated for volumes",
 ]
 
